@@ -21,6 +21,7 @@ func c20(c *eng.Ctx, r *eng.Report) {
 		"R20.4 writer, by-id reader, iterator and remover derive the stake/account/status keys with the same Sha256 nesting depth (1/2/3); " +
 		"R20.5 a BeforeExecute implementation mutates state only through ProcessFee; " +
 		"R20.6 a record is rewritten read-modify-write — UpdateMiner(m, db, false), which writes stake, account and status together, is given the record just read from the registry — and RemoveMiner erases the four slots only on the `left == 0` edge. " +
+		"R20.7 the stake total and the proposer set used for leader election grow together, by the record's own stake, only for non-nil records whose status is normal. " +
 		"Not decided: the sums themselves; equality of the three lookup results as values."
 	r.Assume = []string{"miner records live in the storage of ValidatorDBAddress/ProposerDBAddress only"}
 	c20Layers(c, r)
@@ -30,6 +31,7 @@ func c20(c *eng.Ctx, r *eng.Report) {
 	c20Keys(c, r)
 	c20Before(c, r)
 	c20Record(c, r)
+	c20Election(c, r)
 }
 
 func c20Layers(c *eng.Ctx, r *eng.Report) {
@@ -545,4 +547,65 @@ func c20Record(c *eng.Ctx, r *eng.Report) {
 		r.Check(zero, rule, fmt.Sprintf("RemoveMiner:erase#%d", n), c.Pos(s.Pos()), "erased only on the left == 0 edge", "RemoveMiner can erase a slot of the miner record although stake is left (no `left == 0` condition holds at this write): the leftover stake is neither locked, scheduled for refund nor liquid, and the miner vanishes from every lookup")
 	}
 	r.Check(n >= 4, rule, "RemoveMiner:erase-sites", c.Pos(rem.Pos()), fmt.Sprintf("%d erase writes", n), fmt.Sprintf("RemoveMiner erases only %d of the 4 slots of a record", n))
+}
+
+// c20Election: the stake total and the proposer set used for leader election
+// are accumulated together, from the same record, only for active records.
+func c20Election(c *eng.Ctx, r *eng.Report) {
+	const rule = "R20.7"
+	r.Min(rule, 1)
+	fn := c.Func("service", "(*MinerManager).GetProposerTotalStakeWithDetail")
+	if !r.Anchor(fn != nil, rule, "MinerManager.GetProposerTotalStakeWithDetail") {
+		return
+	}
+	why := ""
+	n := 0
+	for _, b := range fn.Blocks {
+		for _, in := range b.Instrs {
+			mu, ok := in.(*ssa.MapUpdate)
+			if !ok {
+				continue
+			}
+			n++
+			if !strings.HasSuffix(eng.Desc(mu.Value), ".Stake") {
+				why = "the per-member detail records " + eng.Desc(mu.Value) + ", not the record's stake"
+			}
+			// the total is increased by the same record's stake in the same block
+			added := false
+			for _, i2 := range b.Instrs {
+				if bo, isB := i2.(*ssa.BinOp); isB && bo.Op == token.ADD && eng.Desc(bo.Y) == eng.Desc(mu.Value) {
+					added = true
+				}
+			}
+			if !added {
+				why = "the total is not increased by the same record's stake where the member is recorded"
+			}
+			normal, nonNil := false, false
+			for _, cd := range eng.EdgeConds(b) {
+				m, isM := cd.Cmp()
+				if !isM {
+					continue
+				}
+				d := eng.Desc(m.X) + "|" + eng.Desc(m.Y)
+				if strings.Contains(d, ".Status") && m.Op == token.EQL {
+					if k, isK := eng.ConstInt(m.Y); isK && k == 0 {
+						normal = true
+					}
+					if k, isK := eng.ConstInt(m.X); isK && k == 0 {
+						normal = true
+					}
+				}
+				if m.Op == token.NEQ && (eng.IsNilConst(m.X) || eng.IsNilConst(m.Y)) {
+					nonNil = true
+				}
+			}
+			if !normal || !nonNil {
+				why = fmt.Sprintf("a record is counted without the tests record != nil (%v) and Status == MinerStatusNormal (%v)", nonNil, normal)
+			}
+		}
+	}
+	if n != 1 && why == "" {
+		why = fmt.Sprintf("%d writes to the member detail map (one expected)", n)
+	}
+	r.Check(why == "", rule, "GetProposerTotalStakeWithDetail:active-only", c.Pos(fn.Pos()), "total and member set grow together, by the record's stake, only for non-nil records with Status == MinerStatusNormal", "GetProposerTotalStakeWithDetail: "+why+": the stake total and proposer count used for leader election stop being the sum over active records")
 }
